@@ -359,7 +359,7 @@ where
     }
     for &i in &[0i64, 1, -1, 127, 128, -128, -129, 255, 256, 32767, 32768, 65535, 65536, i32::MAX as i64, i32::MAX as i64 + 1, i64::MAX, i64::MIN] {
         if let Ok(v) = guarded(|| <A::NotNan as FromPrimitive>::from_i64(i)) {
-            see(format!("from_i64({})", i), if i.abs() < (1i64 << 53) { Some(i as f64) } else { None }, v, lx);
+            see(format!("from_i64({})", i), if i.unsigned_abs() < (1u64 << 53) { Some(i as f64) } else { None }, v, lx);
         }
         if let Ok(v) = guarded(|| <A::NotNan as FromPrimitive>::from_i128(i as i128 * 4)) {
             see(format!("from_i128({})", i as i128 * 4), None, v, lx);
